@@ -100,3 +100,40 @@ Proof.
   - intros [E1 _]. congruence.
   - intros E. split; congruence.
 Qed.
+
+(** U1 (unforgeability hypothesis of the resumption binding): the Resume1MIC in the Sigma1 the responder
+    accepted is the one THE initiator run (node [a], fresh values [fra], towards ([fab], [peer])) computed
+    from its cached record - over ITS random (the whole value: the symbolic MIC key is
+    HKDF(salt = random || resumption id, secret)) and ITS resumption id. *)
+Definition mic1_from_initiator (a : node) (fra : fresh) (fab peer : N) (m1' : msg) : Prop :=
+  forall q mic, parse_sigma1 m1' = Ok q -> g1_mic q = Some mic ->
+  exists ra, find_by_peer (n_cache a) fab peer = Some ra /\
+    mic = resume_mic INFO_S1RK NONCE_R1 (r_secret ra) (TNonce (fr_rand fra)) (r_rid ra).
+
+Theorem resume_binding_partial : forall a b fra fab peer m1' m2' sa sb,
+  initiator_resume_sound a fra fab peer m2' sa ->
+  responder_resume_sound b m1' sb ->
+  mic1_from_initiator a fra fab peer m1' ->
+  exists q ra rb,
+    parse_sigma1 m1' = Ok q /\ find_by_peer (n_cache a) fab peer = Some ra /\ In rb (n_cache b) /\
+    (* the responder saw the initiator's random, every bit of it, and both used the same record *)
+    g1_random q = TNonce (fr_rand fra) /\ r_secret rb = r_secret ra /\ r_rid rb = r_rid ra /\
+    (* identities come from the two records *)
+    s_fab sa = r_fab ra /\ s_peer sa = r_peer ra /\ s_cats sa = r_cats ra /\
+    s_fab sb = r_fab rb /\ s_peer sb = r_peer rb /\ s_cats sb = r_cats rb /\
+    (* same directional keys crosswise *)
+    s_enc sa = s_dec sb /\ s_dec sa = s_enc sb.
+Proof.
+  intros a b fra fab peer m1' m2' sa sb
+    (ra & nr & fa & Hfind & Hnr & Hmic2 & Hgfa & Hfa & Hrfa & Hpa & Hrpa & Hca & Hresa & Henca & Hdeca)
+    (q & rb & rid & fb & Hq & Hrid & Hin & Hrr & Hmic1 & Hgfb & Hfb & Hpb & Hcb & Hresb & Hdecb & Hencb) U1.
+  destruct (U1 q _ Hq Hmic1) as (ra' & Hfind' & Heq).
+  rewrite Hfind in Hfind'. inversion Hfind'; subst ra'; clear Hfind'.
+  unfold resume_mic, resume_key in Heq.
+  assert (E1 : g1_random q = TNonce (fr_rand fra)) by congruence.
+  assert (E2 : r_secret rb = r_secret ra) by congruence.
+  assert (E3 : r_rid rb = r_rid ra) by congruence.
+  exists q, ra, rb. repeat split; try assumption.
+  - rewrite Henca, Hdecb. unfold rsess_key. congruence.
+  - rewrite Hdeca, Hencb. unfold rsess_key. congruence.
+Qed.
